@@ -129,7 +129,7 @@ impl Property for C13 {
     fn rule(&self) -> String {
         "slim box-bodied robots with optional tool/base + 0..3 free-floating obstacles + non-wrapping limits; start/goal drawn inside the limit box and kept when the robot reports them free (rejections counted); step 1..10 degrees; max_try in {1,10,100,2000}; \
          library RNG seeded per case through verif_hooks; cancellation never / before the call / at the N-th collision query (made deterministic by a counting Kinematics wrapper owned by the harness). \
-         Non-trivial: a returned path with >= 4 nodes in a scene with >= 1 obstacle, or a cancellation case."
+         A second 'coarse' regime uses narrow limit windows (some joints +-0.05..0.2 rad), steps of 12..40 degrees and obstacles attached next to the arm, so that random samples often land within one step of a tree vertex and a noticeable share of the window collides. Non-trivial: a returned path with >= 4 nodes (>= 3 in the coarse regime) in a scene with >= 1 obstacle, or a cancellation case."
             .into()
     }
     fn assumptions(&self) -> Vec<String> {
@@ -143,7 +143,41 @@ impl Property for C13 {
         Plan { workers: tier.pick(4, 16), cases_per_worker: tier.pick(400, 1_500), max_shrink_iters: 100 }
     }
     fn strategy(&self, _tier: Tier) -> BoxedStrategy<Case> {
-        (
+        // "coarse" regime: narrow limit windows, large steps and an obstacle attached next to the arm at the window centre, so that
+        // random samples often fall within one step of a tree vertex and a noticeable share of the window collides
+        let narrow_box = prop::array::uniform6(prop_oneof![2 => (0.05..0.2f64, 0.05..0.2f64), 2 => (0.3..0.8f64, 0.3..0.8f64), 1 => (0.8..1.6f64, 0.8..1.6f64)]).prop_map(|w| {
+            let mut from = [0.0; 6];
+            let mut to = [0.0; 6];
+            for k in 0..6 {
+                from[k] = -w[k].0;
+                to[k] = w[k].1;
+            }
+            LimitSpec { from, to, weight: 0.0 }
+        });
+        let coarse = (
+            planning_scene(2),
+            narrow_box,
+            prop::array::uniform6(0.02..0.98f64),
+            prop::array::uniform6(0.02..0.98f64),
+            12.0..40.0f64,
+            prop_oneof![1 => Just(10u32), 2 => Just(100u32), 2 => Just(1000u32)],
+            any::<u64>(),
+            (prop::collection::vec((1u8..7, prop_oneof![Just(-0.3), Just(0.3), Just(0.8), Just(1.25)], 0u8..6), 1..3)),
+        )
+            .prop_map(|(mut scene, limits, start_u, goal_u, step_deg, max_try, rng_seed, obst)| {
+                // obstacles attached to a link / the tool at the posture built with j_ref = 0 (inside every window)
+                scene.env.truncate(obst.len());
+                while scene.env.len() < obst.len() {
+                    scene.env.push(EnvSpec { attach: 3, gap_factor: 0.5, half: [0.1, 0.1, 0.1], side: 0, spin: 0.0, fan: 0, free_pose: IsoSpec::identity() });
+                }
+                for (e, (attach, gap, side)) in scene.env.iter_mut().zip(obst.iter()) {
+                    e.attach = *attach;
+                    e.gap_factor = *gap;
+                    e.side = *side;
+                }
+                Case { scene, limits, start_u, goal_u, step_deg, max_try, rng_seed, cancel: 0, cancel_at: 1 }
+            });
+        let fine = (
             planning_scene(3),
             limit_box(),
             prop::array::uniform6(0.05..0.95f64),
@@ -154,8 +188,8 @@ impl Property for C13 {
             prop_oneof![5 => Just(0u8), 1 => Just(1u8), 2 => Just(2u8)],
             prop_oneof![4 => any::<u16>().prop_map(|i| [1u32, 2, 3, 5, 10, 30, 100][crate::engine::pick_idx(i, 7)]), 1 => 1u32..400],
         )
-            .prop_map(|(scene, limits, start_u, goal_u, step_deg, max_try, rng_seed, cancel, cancel_at)| Case { scene, limits, start_u, goal_u, step_deg, max_try, rng_seed, cancel, cancel_at })
-            .boxed()
+            .prop_map(|(scene, limits, start_u, goal_u, step_deg, max_try, rng_seed, cancel, cancel_at)| Case { scene, limits, start_u, goal_u, step_deg, max_try, rng_seed, cancel, cancel_at });
+        prop_oneof![3 => fine, 2 => coarse].boxed()
     }
     fn check(&self, c: &Case, ctx: &mut Ctx) -> Res {
         if c.scene.safety.ambiguous() {
@@ -166,8 +200,6 @@ impl Property for C13 {
         scene.limits = Some(c.limits);
         let built = scene.build(&[0.0; 6]);
         let l = &c.limits;
-        let start: [f64; 6] = std::array::from_fn(|k| l.from[k] + c.start_u[k] * (l.to[k] - l.from[k]));
-        let goal: [f64; 6] = std::array::from_fn(|k| l.from[k] + c.goal_u[k] * (l.to[k] - l.from[k]));
         // wrap the kinematics in the counting wrapper
         let stop = Arc::new(AtomicBool::new(false));
         let counting = Arc::new(Counting {
@@ -180,10 +212,26 @@ impl Property for C13 {
             raised: AtomicBool::new(false),
         });
         let robot = KinematicsWithShape { kinematics: counting.clone(), body: built.robot.body };
-        if robot.collides(&start) || robot.collides(&goal) {
-            ctx.exclude("start or goal collides");
-            return Ok(());
-        }
+        // bounded deterministic search for free end points: the k-th candidate shifts the fractions by k * golden ratio (mod 1)
+        let pick = |u0: &[f64; 6], salt: f64| -> Option<[f64; 6]> {
+            for k in 0..10 {
+                let q: [f64; 6] = std::array::from_fn(|j| {
+                    let u = if k == 0 { u0[j] } else { 0.03 + 0.94 * (u0[j] + k as f64 * 0.6180339887498949 * (1.0 + salt + j as f64 * 0.37)).fract() };
+                    l.from[j] + u * (l.to[j] - l.from[j])
+                });
+                if !robot.collides(&q) {
+                    return Some(q);
+                }
+            }
+            None
+        };
+        let (start, goal) = match (pick(&c.start_u, 0.0), pick(&c.goal_u, 0.5)) {
+            (Some(a), Some(b)) => (a, b),
+            _ => {
+                ctx.exclude("no collision-free start/goal among 10 candidates each");
+                return Ok(());
+            }
+        };
         counting.queries.store(0, Ordering::SeqCst);
         counting.constraints_calls.store(0, Ordering::SeqCst);
         let step = c.step_deg.to_radians();
@@ -233,8 +281,9 @@ impl Property for C13 {
                     let d = (0..6).map(|k| (w[0][k] - w[1][k]).powi(2)).sum::<f64>().sqrt();
                     ensure!(d <= 3.0 * step + 1e-9, "consecutive nodes are at most three planner steps apart", "nodes {} and {}: distance {} > 3*{}", i, i + 1, d, step);
                 }
+                ctx.class(if c.step_deg > 10.5 { "regime:coarse steps / narrow windows" } else { "regime:fine steps" });
                 ctx.class(&format!("path-nodes:{}", if path.len() < 4 { "<4" } else if path.len() < 20 { "4..19" } else { ">=20" }));
-                if path.len() >= 4 && !c.scene.env.is_empty() {
+                if (path.len() >= 4 || (c.step_deg > 10.5 && path.len() >= 3)) && !c.scene.env.is_empty() {
                     ctx.nontrivial();
                 }
                 Ok(())
